@@ -101,7 +101,7 @@ Reaches(q, par) == q[2] > 0 /\ Abs(q[1]) * par.td >= par.tn * XU * q[2]
 (* ===================================================================== A-layer ========================== *)
 (* by_chromosome: groupby(sort=False) -- chromosomes in order of first appearance, rows in table order *)
 (* the distinct elements of q in order of first occurrence *)
-UniqSeq(q) == LET f == SetToSortSeq({i \in Idx(q) : \A j \in 1..(i - 1) : q[j] # q[i]}, <)
+UniqSeq(q) == LET f == SelectSeq([i \in Idx(q) |-> i], LAMBDA i : \A j \in 1..(i - 1) : q[j] # q[i])
               IN [k \in Idx(f) |-> q[f[k]]]
 ChromOrder(bins) == UniqSeq([k \in Idx(bins) |-> BC(bins[k])])
 AllPos(bins) == [k \in Idx(bins) |-> k]
@@ -307,7 +307,7 @@ TableOK(bins) ==
     /\ \A k \in Idx(bins) : /\ 0 <= BS(bins[k]) /\ BS(bins[k]) < BE(bins[k]) /\ BC(bins[k]) >= 1
                             /\ Len(BG(bins[k])) >= 1 /\ \A j \in Idx(BG(bins[k])) : BG(bins[k])[j] # ""
                             /\ BI(bins[k]) >= 0 /\ BW(bins[k]) >= 0 /\ BD(bins[k]) >= 0
-                            /\ Abs(BX(bins[k])) <= 1000 /\ BD(bins[k]) <= 1000
+                            /\ Abs(BX(bins[k])) <= 250 /\ BD(bins[k]) <= 1000
     /\ \A k \in 1..(Len(bins) - 1) :
           /\ BI(bins[k]) < BI(bins[k + 1])                                                     \* labels of a filtered default index
           /\ \/ BC(bins[k]) < BC(bins[k + 1])                                                  \* sorted by chromosome,
@@ -336,13 +336,14 @@ BgGeneSpan(bins, out) ==
         /\ Cardinality(js) = 1
         /\ \A j \in js : out[j][2] = SpanSeq(sp[gn][1], sp[gn][2])
 (* maximal stretches of bins outside every gene's first..last range, per chromosome *)
-OtherStretches(bins) ==
+OtherStretchSeq(bins) ==        \* in genomic order
     LET sp == Spans(bins)
         inG(k) == \E gn \in DOMAIN sp : gn[1] = BC(bins[k]) /\ sp[gn][1] <= k /\ k <= sp[gn][2]
         brk(k) == k = 0 \/ k = Len(bins) \/ BC(bins[k]) # BC(bins[k + 1])
-        starts == {k \in Idx(bins) : ~inG(k) /\ (brk(k - 1) \/ inG(k - 1))}
+        starts == SelectSeq([k \in Idx(bins) |-> k], LAMBDA k : ~inG(k) /\ (brk(k - 1) \/ inG(k - 1)))
         endOf(lo) == Min({h \in lo..Len(bins) : brk(h) \/ inG(h + 1)})
-    IN {SpanSeq(lo, endOf(lo)) : lo \in starts}
+    IN [m \in Idx(starts) |-> SpanSeq(starts[m], endOf(starts[m]))]
+OtherStretches(bins) == Range(OtherStretchSeq(bins))
 (* "and, labelled Antitarget, exactly the stretches of other bins between, before and after genes" *)
 BgAntitarget(bins, out) ==
     LET at == {j \in Idx(out) : out[j][1] = AntitargetName}
@@ -447,7 +448,7 @@ SqGeneRows(r) ==
 (* the bins outside every gene are kept, each exactly once (squash_antitarget: one row per stretch) *)
 SqOtherBins(r) ==
     LET others == SelectSeq(r.out, LAMBDA o : ~\E gn \in NamedGenes(r.bins) : o[4] = <<gn[2]>>)
-        st == SetToSortSeq(OtherStretches(r.bins), LAMBDA u, v : u[1] < v[1])
+        st == OtherStretchSeq(r.bins)
         keep(q) == [m \in Idx(q) |-> <<BC(r.bins[q[m]]), BS(r.bins[q[m]]), BE(r.bins[q[m]]), BG(r.bins[q[m]])>>]
         one(q) == IF r.par.sqat /\ Len(q) > 1
                   THEN << <<BC(r.bins[q[1]]), BS(r.bins[q[1]]), BE(r.bins[q[Len(q)]]), <<AntitargetName>>>> >>
@@ -512,7 +513,8 @@ Holds(c, r) ==
       [] c = "br_counts"               -> NoErr(r) => BrCounts(r)
 
 (* ---- premise ------------------------------------------------------------------------------------------- *)
-ThresholdOK(par) == par.tn >= 0 /\ par.td >= 1 /\ par.td <= 16 /\ par.tn <= 1000 /\ par.minp >= 0
+(* bounds keep the cross-multiplications inside TLC's 32-bit integers: |sum w*x| <= 2000*250, sum w <= 2000 *)
+ThresholdOK(par) == par.tn >= 0 /\ par.td >= 1 /\ par.td <= 4000 /\ par.tn <= 100000 /\ par.minp >= 0
 (* every group whose weighted mean / weighted depth the statement speaks of has positive total weight *)
 GeneWeightsOK(r) ==
     LET sp == Spans(r.bins) IN
